@@ -119,6 +119,14 @@ func (i *interpreter) harnessIntrinsic(fn *ssa.Function) intrinsic {
 			fr.i.ex.recordChoice(goString(fr, args[0]), c)
 			return c
 		}
+	case "verif_bound":
+		// verif_bound(name, quick, thorough): the bound for the tier of this run
+		return func(fr *frame, args []value) value {
+			if fr.i.thorough {
+				return goInt(fr, args[2])
+			}
+			return goInt(fr, args[1])
+		}
 	case "verif_symbolic":
 		return func(fr *frame, args []value) value { return true }
 	case "verif_assume":
